@@ -42,7 +42,7 @@ func init() {
 		ID:     "C06",
 		Word32: true,
 		Level:  "model_checking",
-		Rule: "Scheduled part (E4 on the instrumented pbcmpl and iohelper packages): every unordered pair of {Marshal, Unmarshal} × 7 frames as a 2-thread program - each thread with its own message, writer and reader -, every schedule with at most 2 (thorough 3) preemptions; each thread must meet the per-frame obligations exactly as when it runs alone. Sequential part: a payload-length sweep (EVERY length 0..1100 and every threshold length up to 70000 × 4 message kinds: per-frame obligations, and read-back with a small frame behind it); E3 stateless deviation-bounded DFS over a scripted io.Reader: (frames) every frame of the alphabet {generated protobuf message, its versioned wrapper, legacy Marshal/Unmarshal message, its versioned variant} × payload lengths {0,1,2,31,32,33,127,128,129,5000, 2^20+1 (+65535, 65536, 2^20, 2^21+5 thorough)} × versions (every length 0..16, an interior NUL, a leading NUL, trailing spaces): Marshal's count = bytes written = Size = HeaderSize + encoding length, wire bytes = independently built header + encoding, ReadHeader = (version, 32, length) consuming 32 bytes; " +
+		Rule: "Scheduled part (E4 on the instrumented pbcmpl and iohelper packages): every unordered pair of {Marshal, Unmarshal} × 7 frames as a 2-thread program - each thread with its own message, writer and reader -, every schedule with at most 2 (thorough 3) preemptions; each thread must meet the per-frame obligations exactly as when it runs alone. Sequential part: a payload-length sweep (EVERY length 0..1100, every threshold length up to 70000 and every length 2^20-16..2^20+2 - bodies on both sides of the 1 MiB switch to an incremental read - × 4 message kinds: per-frame obligations, and read-back with a small frame behind it); E3 stateless deviation-bounded DFS over a scripted io.Reader: (frames) every frame of the alphabet {generated protobuf message, its versioned wrapper, legacy Marshal/Unmarshal message, its versioned variant} × payload lengths {0,1,2,31,32,33,127,128,129,5000, 2^20+1 (+65535, 65536, 2^20, 2^21+5 thorough)} × versions (every length 0..16, an interior NUL, a leading NUL, trailing spaces): Marshal's count = bytes written = Size = HeaderSize + encoding length, wire bytes = independently built header + encoding, ReadHeader = (version, 32, length) consuming 32 bytes; " +
 			"(histories) every stream of 1..3 frames over a 6-frame sub-alphabet, read back by k+1 Unmarshal calls under every reader chunking with ≤B deviations from 'deliver as much as asked' (deviations: return only j bytes for any j, deliver the last bytes together with io.EOF, one (0,nil) read) plus every uniform chunk size 1..len; every stream also through 11 standard-library reader types and every frame marshalled into 4 standard-library writer types (code may special-case dynamic types); every stream also MARSHALLED frame after frame into one writer (the last message object twice) and read back into reused target messages; three streams in which a frame with a body above 1 MiB is followed by further frames, under whole/uniform chunkings and one forced short read around every frame boundary, body start and power of two; each call must return the next message, its version, n = frame length = bytes actually pulled from the reader, and the extra call (0, cause io.EOF). " +
 			"states = choice-tree nodes (= executions), transitions = reader answers given. Non-trivial: executions with at least one deviation or a multi-frame stream.",
 		Assumptions: []string{
@@ -449,7 +449,19 @@ func c06Versions() []string {
 	for l := 0; l <= 16; l++ {
 		out = append(out, base[:l])
 	}
-	return append(out, "1.\x000", " ", "1.0 ", "\x00x")
+	out = append(out, "1.\x000", " ", "1.0 ", "\x00x")
+	// the library's own constant and its neighbours: DefaultVer itself, every proper prefix of it, and
+	// versions that EXTEND it by 1..11 bytes (a comparison with the default that looks at a prefix only)
+	dv := pbcmpl.DefaultVer
+	for l := 1; l <= len(dv); l++ {
+		out = append(out, dv[:l])
+	}
+	const ext = "-rc1+build.7"
+	for l := 1; l <= 16-len(dv) && l <= len(ext); l++ {
+		out = append(out, dv+ext[:l])
+	}
+	out = append(out, dv+".1", dv+"1", dv+"\x00x", "0"+dv, dv[:len(dv)-1]+"1")
+	return out
 }
 
 func c06Frames(thorough bool) []c06Frame {
@@ -711,6 +723,11 @@ func c06Run(c *mc.Ctx) {
 			lens = append(lens, l)
 		}
 		lens = append(lens, gen.ThresholdSizes(1101, 70000)...)
+		// and every length whose BODY (payload + a few bytes of framing) lies next to 1 MiB, where
+		// Unmarshal switches from one allocation to an incremental read (pbcmpl.maxEagerBody)
+		for l := 1<<20 - 16; l <= 1<<20+2; l++ {
+			lens = append(lens, l)
+		}
 		kinds := []c06Frame{{Kind: "pb"}, {Kind: "legacy"}, {Kind: "pbv", Version: gen.Bytes("3.1")}, {Kind: "legacyv", Version: gen.Bytes("")}}
 		c.Expect(int64(2 * len(lens) * len(kinds)))
 		c.Par(len(lens), func(li int) {
